@@ -18,6 +18,10 @@ def obligations(tier):
     K = 2 if q else 3
     T = 240 if q else 1800
     obs = [Ob("C02.states.covered", "z3", "harness.C02:all_states_covered", 60, replay="harness.C02:replay_state_covered", bounds="every state method of the live HTMLTokenizer class rests in / is passed through by some catalogue prefix", encodes=[TOK + m for m in C02.state_methods()][:5])]
+    # character references are part of the tokenizer (anchors: consumeEntity / consumeNumberEntity); decided in depth under C14, re-run here
+    obs.append(Ob("C02.charref.numeric-value", "crosshair", "harness.C14:numeric_value", 600, bounds="numeric reference value: UNBOUNDED integer; any terminator", encodes=[TOK + "consumeNumberEntity"]))
+    for ctx in range(5):
+        obs.append(Ob("C02.charref.leading-zeros/ctx%d" % ctx, "crosshair", "harness.C14:numeric_leading_zeros", T, param={"ctx": ctx, "zmax": 12 if q else 40}, bounds="0..%d leading zeros + class digit + '1' + optional ';' in context %d" % (12 if q else 40, ctx), encodes=[TOK + "consumeNumberEntity", TOK + "consumeEntity"]))
     for (ci, state), prefixes in sorted(cat.items()):
         use = prefixes[:1] if q else prefixes
         for n, p in enumerate(use):
